@@ -443,6 +443,15 @@ class SA(_np.ndarray):
             return self.copy()
         if isinstance(dt, _np.dtype) and dt in (_np.dtype('float64'), _np.dtype(object)):
             return self.copy()
+        if dt in (int, _np.int64, _np.int32, 'int', 'int64') and all(isinstance(e, (SymBool, bool, _np.bool_)) for e in self.flat):
+            # booleans to 0 / 1 (no fork: an if-then-else term)
+            out = _np.empty(self.shape, dtype=object)
+            out.flat = [SymReal(z3.If(e.e, rv(1), rv(0))) if isinstance(e, SymBool) else SymReal.lift(float(bool(e))) for e in self.flat]
+            return out.view(SA)
+        if dt in (bool, _np.bool_) and all(isinstance(e, (SymBool, bool, _np.bool_, int, float)) for e in self.flat):
+            out = _np.empty(self.shape, dtype=object)
+            out.flat = [e if isinstance(e, SymBool) else bool(e) for e in self.flat]
+            return out.view(SA)
         raise Unsupported('astype(%r) on a symbolic array' % (dt,))
 
     def _mask(self, idx):
